@@ -1,20 +1,23 @@
 //! ad-hoc probes (not part of any check)
 use crate::gen;
-use crate::util::Rng;
+use engeom::geom3::{Plane3, UnitVec3};
 pub fn run() {
-    let mut rng = Rng::new(5);
-    for _ in 0..4 {
-        let m = gen::height_field(&mut rng, 5, 4, 0.6);
-        let mut outs = vec![];
-        for _ in 0..3 {
-            let e = m.calc_edges().unwrap();
-            let uv = e.boundary_first_flatten().unwrap();
-            outs.push((uv, e.boundary_loops[0].clone()));
-        }
-        let edges: Vec<(u32, u32)> = m.faces().iter().flat_map(|f| vec![(f[0], f[1]), (f[1], f[2]), (f[2], f[0])]).collect();
-        for k in 1..3 {
-            let w = edges.iter().map(|(a, b)| ((outs[0].0[*a as usize] - outs[0].0[*b as usize]).norm() - (outs[k].0[*a as usize] - outs[k].0[*b as usize]).norm()).abs()).fold(0.0, f64::max);
-            println!("same mesh, run 0 vs {k}: loop starts {} vs {}, worst flattened edge length difference {w:e}", outs[0].1[0], outs[k].1[0]);
+    let m = gen::torus(3.0, 0.8, 7, 4);
+    let v = m.vertices();
+    println!("verts {} faces {}", v.len(), m.faces().len());
+    // plane through vertices 0,1,2 ... try the first ring: find 3 vertices of one meridian ring
+    for (a, b, c) in [(0usize, 1usize, 2usize), (0, 7, 14), (0, 4, 8)] {
+        let n = (v[b] - v[a]).cross(&(v[c] - v[a]));
+        if n.norm() < 1e-9 { continue; }
+        let n = UnitVec3::new_normalize(n);
+        let plane = Plane3::new(n, n.dot(&v[a].coords));
+        let on: Vec<usize> = (0..v.len()).filter(|k| plane.signed_distance_to_point(&v[*k]).abs() < 1e-9).collect();
+        println!("plane through {a},{b},{c}: on-plane vertices {on:?}");
+        let cs = m.section(&plane, Some(1e-10)).unwrap();
+        for cv in &cs {
+            let ids: Vec<String> = cv.points().iter().map(|p| match v.iter().position(|q| (q - p).norm() < 1e-9) { Some(k) => format!("v{k}"), None => format!("({:.2},{:.2},{:.2})", p.x, p.y, p.z) }).collect();
+            println!("   curve: {}", ids.join(" "));
         }
     }
+    for f in m.faces().iter().take(16) { println!("face {:?}", f); }
 }
